@@ -130,7 +130,7 @@ def run(ctx):
         if len(touts) == 2 and tot_var:
             v0, spk0 = touts[0][1][0], touts[0][1][1]
             v1, spk1 = touts[1][1][0], touts[1][1][1]
-            TOT = [t for t in tm.subterms(v1) if isinstance(t, T) and t.op == "loopout" and t.args[0] == tot_var]
+            TOT = [t for t in tm.subterms(v1) if isinstance(t, T) and t.op == "loopout" and t.args[0] == tot_var] or selected_total_forms(v1, lp, amt)
             fee = P("miner_fee", tm.INT)
             okc = bool(TOT) and tm.veq(tm.add([v0, v1, fee]), TOT[0])
             R.check("C16.4", "TERM-EQ", fi, label + ": recipient + change + fee = sum of the selected inputs", okc,
@@ -255,6 +255,44 @@ def is_unspents(it):
     if isinstance(it, T) and it.op == "ite":
         return is_unspents(it.args[1]) and is_unspents(it.args[2])
     return isinstance(it, T) and it.op == "idx" and it.args[1] == "unspents"
+
+
+def selected_total_forms(v, lp, amt):
+    """Terms inside v that denote the sum of the per-iteration amount `amt` over the iterations of the selection loop without
+    being the loop's own running total: sum(f(x) for x in L) where the loop appends one g(u) to L per iteration (L starting
+    empty) and f(g(u)) is amt."""
+    out = []
+    for t in tm.subterms(v):
+        if not (isinstance(t, T) and t.op == "sum" and len(t.args) == 1):
+            continue
+        inner = rules.unfz(t.args[0])
+        f = None
+        if isinstance(inner, T) and inner.op == "map" and inner.args[2] is None:
+            f, inner = inner.args[0], rules.unfz(inner.args[1])
+        if not (isinstance(inner, T) and inner.op == "loopout" and inner.args[1] == "for" and inner.args[5] == lp.depth):
+            continue
+        var = inner.args[0]
+        body, init = dict(inner.args[3]), dict(inner.args[4])
+        step = rules.unfz(body.get(var))
+        if rules.unfz(init.get(var)) != [] or not (isinstance(step, T) and step.op == "lcat" and len(step.args) == 2 and tm.veq(step.args[0], T("acc", (var, lp.depth), tm.LIST))):
+            continue
+        app = rules.unfz(step.args[1])
+        if not (isinstance(app, (list, tuple)) and len(app) == 1):
+            continue
+        g = app[0]
+        if not tm.veq(rules.unfz(lp.body.get(var)), step):
+            continue  # not the list this selection loop builds
+        if f is None:
+            per = g
+        else:
+            # the comprehension's own element variable is the innermost bound variable of f
+            bvs = sorted({u.args[0] for u in tm.subterms(f) if isinstance(u, T) and u.op == "bv"})
+            if len(bvs) != 1:
+                continue
+            per = tm.subst(f, lambda u: g if isinstance(u, T) and u.op == "bv" and u.args[0] == bvs[0] else None)
+        if tm.veq(per, amt):
+            out.append(t)
+    return out
 
 
 def _sel_proj(s, fi):
